@@ -105,6 +105,15 @@ def _zcond(n, env):
     return ops[type(n.ops[0])] % (a, b)
 
 
+def _zbool(n, env):
+    if isinstance(n, ast.BoolOp):
+        op = ' || ' if isinstance(n.op, ast.Or) else ' && '
+        return '(' + op.join(_zbool(v, env) for v in n.values) + ')'
+    if isinstance(n, ast.UnaryOp) and isinstance(n.op, ast.Not):
+        return '(negb %s)' % _zbool(n.operand, env)
+    return _zcond(n, env)
+
+
 def _zblock(stmts, env, result):
     """stmts -> Coq expression; `result` is the expression (over Coq variable names) to yield when the block falls through."""
     if not stmts:
@@ -369,63 +378,126 @@ def main(out_path):
     need(len(gn) == 1, 'openssh 2048 note text')
     w('Definition openssh_2048_note : string := ' + cstr(gn[0]) + '.')
 
-    # literals that the hand-written models repeat; proofs/TieProofs.v proves each copy equal to what is emitted here
-    mk = sorted(x for x in strs if x.startswith('kex-strict-') and x.endswith('@openssh.com'))
-    need(len(mk) == 2, 'post_process_findings marker names: %r' % (mk,))
-    w('Definition src_pp_markers : list string := ' + cstrs(mk) + '.')
-    adv = [x for x in strs if x.startswith('Be aware that, while this target properly supports the strict key exchange method')]
-    need(len(adv) == 1 and adv[0].count('%s') == 1, 'terrapin advisory note template')
-    w('Definition src_advisory_prefix : string := ' + cstr(adv[0].split('%s')[0]) + '.')
-    w('Definition src_advisory_suffix : string := ' + cstr(adv[0].split('%s')[1]) + '.')
-    t_pol = ast.parse(src('policy.py'))
-    ev = func_node(t_pol, 'Policy.evaluate')
-    pmk = sorted({n.value for n in ast.walk(ev) if isinstance(n, ast.Constant) and isinstance(n.value, str) and n.value.startswith('kex-strict-')})
-    need(len(pmk) == 2, 'Policy.evaluate marker names: %r' % (pmk,))
-    w('Definition src_policy_markers : list string := ' + cstrs(pmk) + '.')
-    au = func_node(t_main, 'audit')
-    mm = [c.comparators[0].value for c in ast.walk(au) if isinstance(c, ast.Compare) and isinstance(c.left, ast.Name) and c.left.id == 'payload_txt'
-          and len(c.ops) == 1 and isinstance(c.ops[0], ast.Eq) and isinstance(c.comparators[0], ast.Constant) and isinstance(c.comparators[0].value, str)]
-    need(len(mm) == 1, 'audit(): comparison of payload_txt with the protocol mismatch text: %r' % (mm,))
-    w('Definition src_protocol_mismatch_text : string := ' + cstr(mm[0]) + '.')
-    gr = func_node(t_main, 'get_algorithm_recommendations')
-    cn = sorted({n.value for n in ast.walk(gr) if isinstance(n, ast.Constant) and isinstance(n.value, str) and n.value.startswith('increase modulus size')})
-    need(len(cn) == 1, 'change recommendation note: %r' % (cn,))
-    w('Definition src_chg_note : string := ' + cstr(cn[0]) + '.')
-    oa = func_node(t_main, 'output_algorithm')
-    ua = sorted({n.value for n in ast.walk(oa) if isinstance(n, ast.Constant) and isinstance(n.value, str) and 'unknown algorithm' in n.value})
-    need(ua == ['unknown algorithm'], 'output_algorithm unknown text: %r' % (ua,))
-    w('Definition src_unknown_text : string := ' + cstr(ua[0]) + '.')
-    # main(): what the multi-target loop itself prints (brackets, separator, delimiter line)
-    mn = func_node(t_main, 'main')
-    prints = [n for n in ast.walk(mn) if isinstance(n, ast.Call) and isinstance(n.func, ast.Name) and n.func.id == 'print']
-    consts = sorted(n.args[0].value for n in prints if n.args and isinstance(n.args[0], ast.Constant) and isinstance(n.args[0].value, str))
-    need(consts == [', ', '[', ']'], 'main(): constant print() arguments %r' % (consts,))
-    dl = [n.args[0] for n in prints if n.args and isinstance(n.args[0], ast.BinOp) and isinstance(n.args[0].op, ast.Add)]
-    need(len(dl) == 1 and isinstance(dl[0].left, ast.BinOp) and isinstance(dl[0].left.op, ast.Mult) and lit(dl[0].left.left) == '-' and isinstance(lit(dl[0].left.right), int)
-         and lit(dl[0].right) == '\n', 'main(): delimiter print')
-    w('Definition src_multi_delim_char : string := ' + cstr(lit(dl[0].left.left)) + '. Definition src_multi_delim_count : nat := %d%%nat.' % lit(dl[0].left.right))
-    w('Definition src_multi_json_open : string := %s. Definition src_multi_json_sep : string := %s. Definition src_multi_json_close : string := %s.' % (cstr(consts[1]), cstr(consts[0]), cstr(consts[2])))
+    # ---- literals and integer kernels that the hand-written models repeat; proofs/TieCnn.v proves each copy equal to what is emitted here.
+    # These extractions are SOFT: when the source no longer has the expected shape, the definition is left out (with a comment saying why) and
+    # only the tie file of the property concerned stops compiling - the other properties' checks are not affected by that rewrite.
+    soft_failures = []
 
-    # integer kernels, translated statement by statement from the current source (proofs/TieProofs.v proves the hand-written models equal to them)
-    t_kexdh = ast.parse(src('kexdh.py'))
-    adj = func_node(t_kexdh, 'KexDH.__adjust_key_size')
-    need([a.arg for a in adj.args.args] == ['size'], '__adjust_key_size signature')
-    w(int_kernel('src_adjust_key_size', ['size'], adj.body))
-    sp = func_node(t_sock, 'SSH_Socket.send_packet')
-    # statements between `payload = self.write_flush()` and the first use of struct.pack: the padding and length computation
-    seg = []
-    for st in sp.body[1:]:
-        if isinstance(st, ast.Assign) and isinstance(st.targets[0], ast.Name) and st.targets[0].id in ('pad_bytes', 'data'):
-            break
-        seg.append(st)
-    need(len(seg) >= 2 and isinstance(sp.body[0], ast.Assign) and sp.body[0].targets[0].id == 'payload', 'send_packet shape')
-    w(int_kernel('src_send_packet_padding', ['n'], seg, inputs={'len(payload)': 'n'}, result=lambda e: e['padding']))
-    w(int_kernel('src_send_packet_length', ['n'], seg, inputs={'len(payload)': 'n'}, result=lambda e: e['plen']))
-    rp = func_node(t_sock, 'SSH_Socket.read_packet')
-    s1 = [st for st in ast.walk(rp) if isinstance(st, ast.Assign) and isinstance(st.targets[0], ast.Name) and st.targets[0].id == 'padding_length'
-          and isinstance(st.value, ast.BinOp)]
-    need(len(s1) == 1, 'read_packet: SSH-1 padding_length computation')
-    w(int_kernel('src_ssh1_padding_length', ['packet_length'], [ast.Return(value=s1[0].value)]))
+    def soft(what, props, fn):
+        mark = len(o)
+        try:
+            fn()
+        except TranslateError as e:
+            del o[mark:]
+            w('(* NOT EXTRACTED (%s): %s -- the tie lemmas of %s cannot be checked *)' % (what, str(e).replace('*)', '* )')[:300], ', '.join(props)))
+            soft_failures.append({'what': what, 'properties': props, 'reason': str(e)[:300]})
+
+    def ex_markers():
+        mk = sorted(x for x in strs if x.startswith('kex-strict-') and x.endswith('@openssh.com'))
+        need(len(mk) == 2, 'post_process_findings marker names: %r' % (mk,))
+        w('Definition src_pp_markers : list string := ' + cstrs(mk) + '.')
+        adv = [x for x in strs if x.startswith('Be aware that, while this target properly supports the strict key exchange method')]
+        need(len(adv) == 1 and adv[0].count('%s') == 1, 'terrapin advisory note template')
+        w('Definition src_advisory_prefix : string := ' + cstr(adv[0].split('%s')[0]) + '.')
+        w('Definition src_advisory_suffix : string := ' + cstr(adv[0].split('%s')[1]) + '.')
+    soft('Terrapin marker names and advisory template (post_process_findings)', ['C04'], ex_markers)
+
+    def ex_policy_markers():
+        t_pol = ast.parse(src('policy.py'))
+        ev = func_node(t_pol, 'Policy.evaluate')
+        pmk = sorted({n.value for n in ast.walk(ev) if isinstance(n, ast.Constant) and isinstance(n.value, str) and n.value.startswith('kex-strict-')})
+        need(len(pmk) == 2, 'Policy.evaluate marker names: %r' % (pmk,))
+        w('Definition src_policy_markers : list string := ' + cstrs(pmk) + '.')
+    soft('strict-KEX marker names (Policy.evaluate)', ['C06'], ex_policy_markers)
+
+    def ex_mismatch():
+        au = func_node(t_main, 'audit')
+        mm = [c.comparators[0].value for c in ast.walk(au) if isinstance(c, ast.Compare) and isinstance(c.left, ast.Name) and c.left.id == 'payload_txt'
+              and len(c.ops) == 1 and isinstance(c.ops[0], ast.Eq) and isinstance(c.comparators[0], ast.Constant) and isinstance(c.comparators[0].value, str)]
+        need(len(mm) == 1, 'audit(): comparison of payload_txt with the protocol mismatch text: %r' % (mm,))
+        w('Definition src_protocol_mismatch_text : string := ' + cstr(mm[0]) + '.')
+    soft('protocol mismatch text (audit)', ['C09'], ex_mismatch)
+
+    def ex_chg():
+        gr = func_node(t_main, 'get_algorithm_recommendations')
+        cn = sorted({n.value for n in ast.walk(gr) if isinstance(n, ast.Constant) and isinstance(n.value, str) and n.value.startswith('increase modulus size')})
+        need(len(cn) == 1, 'change recommendation note: %r' % (cn,))
+        w('Definition src_chg_note : string := ' + cstr(cn[0]) + '.')
+    soft('change recommendation note (get_algorithm_recommendations)', ['C13'], ex_chg)
+
+    def ex_unknown():
+        oa = func_node(t_main, 'output_algorithm')
+        ua = sorted({n.value for n in ast.walk(oa) if isinstance(n, ast.Constant) and isinstance(n.value, str) and 'unknown algorithm' in n.value})
+        need(ua == ['unknown algorithm'], 'output_algorithm unknown text: %r' % (ua,))
+        w('Definition src_unknown_text : string := ' + cstr(ua[0]) + '.')
+    soft('unknown-algorithm text (output_algorithm)', ['C03'], ex_unknown)
+
+    def ex_multi():
+        # main(): what the multi-target loop itself prints (brackets, separator, delimiter line)
+        mn = func_node(t_main, 'main')
+        prints = [n for n in ast.walk(mn) if isinstance(n, ast.Call) and isinstance(n.func, ast.Name) and n.func.id == 'print']
+        consts = sorted(n.args[0].value for n in prints if n.args and isinstance(n.args[0], ast.Constant) and isinstance(n.args[0].value, str))
+        need(consts == [', ', '[', ']'], 'main(): constant print() arguments %r' % (consts,))
+        dl = [n.args[0] for n in prints if n.args and isinstance(n.args[0], ast.BinOp) and isinstance(n.args[0].op, ast.Add)]
+        need(len(dl) == 1 and isinstance(dl[0].left, ast.BinOp) and isinstance(dl[0].left.op, ast.Mult) and lit(dl[0].left.left) == '-' and isinstance(lit(dl[0].left.right), int)
+             and lit(dl[0].right) == '\n', 'main(): delimiter print')
+        w('Definition src_multi_delim_char : string := ' + cstr(lit(dl[0].left.left)) + '. Definition src_multi_delim_count : nat := %d%%nat.' % lit(dl[0].left.right))
+        w('Definition src_multi_json_open : string := %s. Definition src_multi_json_sep : string := %s. Definition src_multi_json_close : string := %s.' % (cstr(consts[1]), cstr(consts[0]), cstr(consts[2])))
+    soft('multi-target delimiter and JSON brackets (main)', ['C08'], ex_multi)
+
+    # integer kernels, translated statement by statement from the current source
+    def ex_adjust():
+        t_kexdh = ast.parse(src('kexdh.py'))
+        adj = func_node(t_kexdh, 'KexDH.__adjust_key_size')
+        need([a.arg for a in adj.args.args] == ['size'], '__adjust_key_size signature')
+        w(int_kernel('src_adjust_key_size', ['size'], adj.body))
+    soft('KexDH.__adjust_key_size', ['C11'], ex_adjust)
+
+    def ex_framing():
+        sp = func_node(t_sock, 'SSH_Socket.send_packet')
+        # statements between `payload = self.write_flush()` and the first use of struct.pack: the padding and length computation
+        seg = []
+        for st in sp.body[1:]:
+            if isinstance(st, ast.Assign) and isinstance(st.targets[0], ast.Name) and st.targets[0].id in ('pad_bytes', 'data'):
+                break
+            seg.append(st)
+        need(len(seg) >= 2 and isinstance(sp.body[0], ast.Assign) and sp.body[0].targets[0].id == 'payload', 'send_packet shape')
+        w(int_kernel('src_send_packet_padding', ['n'], seg, inputs={'len(payload)': 'n'}, result=lambda e: e['padding']))
+        w(int_kernel('src_send_packet_length', ['n'], seg, inputs={'len(payload)': 'n'}, result=lambda e: e['plen']))
+        rp = func_node(t_sock, 'SSH_Socket.read_packet')
+        asg = lambda name: [st for st in ast.walk(rp) if isinstance(st, ast.Assign) and isinstance(st.targets[0], ast.Name) and st.targets[0].id == name and isinstance(st.value, ast.BinOp)]
+        s1 = asg('padding_length')
+        need(len(s1) == 1, 'read_packet: SSH-1 padding_length computation')
+        w(int_kernel('src_ssh1_padding_length', ['packet_length'], [ast.Return(value=s1[0].value)]))
+        pl = asg('payload_length')
+        need(len(pl) == 1, 'read_packet: SSH-2 payload_length computation')
+        w(int_kernel('src_ssh2_payload_length', ['packet_length', 'padding_length'], [ast.Return(value=pl[0].value)]))
+        cs = asg('check_size')
+        need(len(cs) == 2, 'read_packet: check_size computations')
+        w(int_kernel('src_ssh1_check_size', ['padding_length', 'payload_length'], [ast.Return(value=cs[0].value)]))
+        w(int_kernel('src_ssh2_check_size', ['payload_length', 'padding_length'], [ast.Return(value=cs[1].value)]))
+        init = func_node(t_sock, 'SSH_Socket.__init__')
+        bs = [st.value.value for st in ast.walk(init) if isinstance(st, ast.Assign) and isinstance(st.targets[0], ast.Attribute) and st.targets[0].attr.endswith('block_size') and isinstance(st.value, ast.Constant)]
+        need(len(bs) == 1 and isinstance(bs[0], int), 'SSH_Socket block size')
+        w('Definition src_block_size : Z := %d.' % bs[0])
+    soft('packet framing arithmetic (SSH_Socket.send_packet / read_packet)', ['C10'], ex_framing)
+
+    def ex_ports():
+        # every place that validates a port number: `if <name> < 1 or <name> > 65535:`
+        sites = [('auditconf.py', 'AuditConf.__setattr__'), ('ssh_audit.py', 'process_commandline'), ('ssh_socket.py', 'SSH_Socket.__init__')]
+        k = 0
+        for fn, qn in sites:
+            fnode = func_node(ast.parse(src(fn)), qn)
+            tests = [n.test for n in ast.walk(fnode) if isinstance(n, ast.If) and any(isinstance(c, ast.Constant) and c.value == 65535 for c in ast.walk(n.test))]
+            need(len(tests) >= 1, 'port range test in %s' % qn)
+            for t in tests:
+                names = sorted({x.id for x in ast.walk(t) if isinstance(x, ast.Name)})
+                need(len(names) == 1, 'port range test over one variable in %s: %r' % (qn, names))
+                w('Definition src_port_invalid_%d (p : Z) : bool := %s.   (* %s: %s *)' % (k, _zbool(t, {names[0]: 'p'}), qn, ast.unparse(t)))
+                k += 1
+        w('Definition src_port_invalid_all (p : Z) : list bool := [%s].' % '; '.join('src_port_invalid_%d p' % i for i in range(k)))
+    soft('port range tests (AuditConf, process_commandline, SSH_Socket)', ['C18'], ex_ports)
+    globals()['LAST_SOFT_FAILURES'] = soft_failures
 
     text = '\n'.join(o) + '\n'
     old = None
